@@ -84,7 +84,8 @@ def confirm(pid, name):
     # existing tests of the touched packages, demo file moved aside
     for f in files:
         os.rename(os.path.join(wt, f), os.path.join(wt, f) + ".aside")
-    rc, o = sh("go test -count=1 %s 2>&1 | tail -15" % " ".join(pk), cwd=wt, timeout=5400)
+    # TestGenerateIndexFile_Uvarint (tsi1) fails on the unchanged tree as well (testdata missing): skipped
+    rc, o = sh("go test -count=1 -timeout 120m -skip 'TestGenerateIndexFile_Uvarint' %s 2>&1 | tail -15" % " ".join(pk), cwd=wt, timeout=9000)
     st["existing_tests"] = {"rc": rc, "tail": o[-900:], "pass": ("FAIL" not in o and "panic:" not in o)}
     for f in files:
         os.rename(os.path.join(wt, f) + ".aside", os.path.join(wt, f))
